@@ -206,9 +206,16 @@ def default_open(r: R, chk, consumers: List[str]):
         if not any(isinstance(b, ast.BinOp) and isinstance(b.op, ast.Div) and seg(b.right).replace(" ", "") in ("(npts-1)", "npts-1") for b in ast.walk(fi.node)):
             raise AnalysisError(f"{q} no longer divides by npts - 1: the closed-node table of the checker is stale")
     n = 0
+    nreq = 0
     for q in consumers:
         ctx = r.root(q)
         fi = ctx.fi
+        if _evaluates_pieces(r, ctx):
+            # every span evaluates its own closed piece (PIECEWISE-EVAL): a node at a span end is read on the right piece,
+            # so the default rule may be closed or open
+            chk.note(f"DEFAULT-OPEN: {q} evaluates the piece of each span — no constraint on its default rule")
+            continue
+        nreq += 1
         reg = {}
         for s in ast.walk(fi.node):
             if isinstance(s, ast.Assign) and isinstance(s.value, ast.Dict):
@@ -229,7 +236,24 @@ def default_open(r: R, chk, consumers: List[str]):
             chk.ob("DEFAULT-OPEN", f"{q}: the default `{s.value.value}` samples no span end", ok, loc=r.loc(ctx, s),
                    detail="" if ok else f"{q}: without an explicit method the rule {s.value.value!r} is used, whose nodes ({nf}: {CLOSED_NODES.get(nf, 'not in the registry')}) include the span ends: the right end of every span is evaluated on the next span (right-continuity), so the integral of a degree-0 curve and the length of a polyline with unequal speeds are wrong",
                    func=q, construct=f"default rule {s.value.value} samples span ends")
-    chk.floor("DEFAULT-OPEN", "default rule selections", n, 2 * len(consumers))
+    chk.floor("DEFAULT-OPEN", "default rule selections", n, 2 * nreq)
+
+
+def _evaluates_pieces(r: R, ctx) -> bool:
+    """all curve evaluations inside the function's loops have a loop-local receiver (a piece from split()), and there is one"""
+    fi = ctx.fi
+    seen = False
+    for lp in [x for x in ast.walk(fi.node) if isinstance(x, ast.For)]:
+        inner = {id(x) for st in lp.body for x in ast.walk(st)}
+        local = {x.id for x in ast.walk(lp.target) if isinstance(x, ast.Name)}
+        for cr in ctx.calls:
+            if id(cr.node) in inner and any(f.qual in ("curves.Curve.eval", "curves.BaseCurve.__call__") for f in cr.callees):
+                node = cr.node
+                recv = node.func.value if isinstance(node, ast.Call) and isinstance(node.func, ast.Attribute) else None
+                if not (isinstance(recv, ast.Name) and recv.id in local):
+                    return False
+                seen = True
+    return seen
 
 
 def open_nodes(r: R, chk, qual: str, rule="OPEN-NODES"):
@@ -333,7 +357,7 @@ def run(m, chk):
         "define them and asks both for the same size (PAIR); the literal seeds satisfy length / sum / symmetry / moment equations against closed forms coded in the checker (SEED); Integrate.* do not modify the curve "
         "and depend on all their inputs. Exactness order of the *computed* rules, the closed-form spline integral and polyline length are not decided."
     )
-    chk.decides = ["PURE-MEMO", "PAIR (family and size)", "SEED", "PURE", "DEP-MAY", 'MEMO-KEY (no value-keyed memoisation)', 'DEFAULT-OPEN (the default rule has no node at a span end)', 'JACOBIAN (span sums are multiplied by the span length)']
+    chk.decides = ["PURE-MEMO", "PAIR (family and size)", "SEED", "PURE", "DEP-MAY", 'MEMO-KEY (no value-keyed memoisation)', 'DEFAULT-OPEN (the default rule has no node at a span end)', 'JACOBIAN (span sums are multiplied by the span length)', 'PIECEWISE-EVAL (with a closed rule on offer, each span evaluates its own piece)']
     chk.not_decided = ["exactness order of the computed rules for every n (Linalg.invert)", "Integrate.scalar equals the closed form", "polyline length"]
     chk.assume("numpy.polynomial.legendre.leggauss is deterministic")
     tabs, acc = pure_memo(r, chk)
@@ -343,9 +367,10 @@ def run(m, chk):
     pairing(r, chk, ["calculus.Integrate.scalar", "calculus.Integrate.density", "calculus.Integrate.function", "heavy.LeastSquare.func2func"], floor=20)
     seeds(r, chk, tabs)
     default_open(r, chk, ["calculus.Integrate.scalar", "calculus.Integrate.density", "calculus.Integrate.function"])
-    from .extra import jacobian
+    from .extra import jacobian, piecewise_eval
 
     jacobian(r, chk, ["calculus.Integrate.scalar", "calculus.Integrate.density", "calculus.Integrate.function"])
+    piecewise_eval(r, chk, ["calculus.Integrate.scalar", "calculus.Integrate.density"])
     for q, params in (("calculus.Integrate.scalar", ["curve"]), ("calculus.Integrate.density", ["curve"]), ("calculus.Integrate.lenght", ["curve"]), ("calculus.Integrate.function", ["knotvector"])):
         r.pure("PURE", q, params)
     for q, need in (("calculus.Integrate.scalar", ["curve.knotvector", "curve.ctrlpoints", "curve.weights", "function", "method", "nnodes"]), ("calculus.Integrate.density", ["curve.knotvector", "curve.ctrlpoints", "curve.weights", "function", "method", "nnodes"]), ("calculus.Integrate.function", ["knotvector", "function", "method", "nnodes"])):
